@@ -97,6 +97,13 @@ Theorem C08_raises : forall a c e, raises a c = Some e ->
 Proof. exact raises_only. Qed.
 Print Assumptions C08_raises.
 
+(* ... and a call that raises reaches no log and no TestByTestResult (Proof.C08.silent), which is why the
+   model may push the whole history through every path. *)
+Theorem C08_raise_delivers_nothing : forall a c e, raises a c = Some e ->
+  forall p, In p (paths a) -> silent (snd p) (through (fst p) (snd p) [c]).
+Proof. exact raising_call_delivers_nothing. Qed.
+Print Assumptions C08_raise_delivers_nothing.
+
 (* non-vacuity: a MultiTestResult over a tagged TestByTestResult and a 2.6-style result; an unexpected
    success of a PlaceHolder with details, a skip with a 'reason' detail *)
 Example C08_example :
